@@ -73,6 +73,11 @@ class C19(Prop):
         # error comes out of the include handling, not out of a table
         for n in (1, 2, 4):
             cases.append({"reader": "load_xlsx_badinclude", "n": n + 1, "k": n + 2, "mode": "exhaust", "fault": n})
+        # a workbook of several sheets read through a sheet-name pattern: only some sheets match, or none at all
+        for n in (0, 1, 3):
+            for k in range(0, n + 2):
+                for mode in ("exhaust", "close", "drop"):
+                    cases.append({"reader": "xlsx_sheets", "n": n, "k": k, "mode": mode, "fault": None})
         for rd in readers:
             for n in (1, 2, 3, 5) if tier == "quick" else (1, 2, 3, 4, 5, 7):
                 for k in range(0, n + 1):
@@ -116,6 +121,13 @@ class C19(Prop):
 
         wb = openpyxl.Workbook()
         ws = wb.active
+        if rd == "xlsx_sheets":
+            # the tables of the case on sheet 'Sel' (none if n = 0: then no sheet matches), others on two more sheets
+            for title in ("other", "more"):
+                w2 = wb.create_sheet(title)
+                for r in (["**u"], ["all"], ["c"], ["-"], [1], []):
+                    w2.append(r)
+            ws.title = "Sel" if n else "unselected"
         for i in range(n):
             for r in ([f"**t{i}"], ["all"], ["c"], ["-"], ["x" if fault == i else i], []):
                 ws.append(r)
@@ -146,6 +158,10 @@ class C19(Prop):
                     gen = read_csv(stream, sep=";")
                 elif rd == "xlsx_path":
                     gen = read_excel(path)
+                elif rd == "xlsx_sheets":
+                    import re
+
+                    gen = read_excel(path, sheet_name_pattern=re.compile("^Sel$"))
                 elif rd == "xlsx_bytes":
                     stream = open(path, "rb")
                     gen = read_excel(stream)
@@ -277,7 +293,7 @@ class C19(Prop):
             if obs.get("caller_stream_closed"):
                 fails.append("caller-stream: the writer closed the caller's stream")
             return fails
-        owns = case["reader"] in ("csv_path", "xlsx_path", "load_files", "load_xlsx_badinclude", "load_root_only")
+        owns = case["reader"] in ("csv_path", "xlsx_path", "xlsx_sheets", "load_files", "load_xlsx_badinclude", "load_root_only")
         if obs["before_first_next"] != 0:
             fails.append("early-open: a file is open before the first block is requested")
         for kind, n, how in obs["events"]:
@@ -302,7 +318,7 @@ class C19(Prop):
     def to_coq(self, case, obs):
         if "writer" in case or "harness_exc" in obs:
             return None
-        owns = case["reader"] in ("csv_path", "xlsx_path", "load_files", "load_xlsx_badinclude", "load_root_only")
+        owns = case["reader"] in ("csv_path", "xlsx_path", "xlsx_sheets", "load_files", "load_xlsx_badinclude", "load_root_only")
         evs = []
         for kind, n, how in obs["events"]:
             evs.append(g_pair({"next": "GNext", "close": "GClose", "drop": "GDrop"}[kind], g_nat(n)))
